@@ -3,10 +3,16 @@ package wm
 import (
 	"fmt"
 	"os"
+	"strings"
+	"sync"
+	"sync/atomic"
 	"time"
+
+	"github.com/0chain/common/core/util/wmpt"
 
 	"verifmc/dev"
 	"verifmc/explore/seq"
+	"verifmc/model"
 	"verifmc/rt"
 )
 
@@ -230,8 +236,162 @@ func C09(tier rt.Tier) int {
 	for _, c := range runs {
 		runCfg(rep, c, time.Now().Add(per), plainClassify)
 	}
+	if rt.Replay == nil || rt.Replay.Run == "width" {
+		wideCases(rep, tier)
+	}
 	rep.Set("dedup", haveDump)
 	rep.Set("rule", "BFS over all histories of {Update(k,v,weight(v)), delete (in the put-delete runs through Put and Delete, whose reported released weight is judged), Commit(level)+batch.Commit for the listed collapse levels, DeleteNodes, reload from (root hash, weight), Root(), and in the snapshot runs: snapshot = New(CopyRoot(level)) of the committed trie, updates/deletes through the snapshot} over 32-byte keys sharing prefixes of 63/3/2/1/0 nibbles; after every operation on a throw-away replay: Weight() = sum of live weights, Root() = independent root, for EVERY block 1..W GetBlockProof returns the cumulative-weight owner and the proof verifies to (root, owner's value); delete of an absent key must return ErrNotFound; a snapshot is judged like the trie itself against the content it was taken with plus its own later writes; states merged on model + dumped trie structure (dirty/collapsed flags, GC sets) + storage keys")
 	rep.Assumption("storage is an in-memory StorageAdapter with atomic batches; Pebble itself is not under test")
 	return rep.Finish()
+}
+
+// ---- width cases (engine E4): the BFS keys use the nibbles 0 and 1 only, so a branch never has a child
+// in the slots 2..15. Here keys differ in ONE nibble position (first, second, next to last, last): every
+// pair of the 16 nibble values, every 15-subset and the full set, in memory and committed+reloaded;
+// after building, after a delete and after an update the trie is judged like every BFS state (weight,
+// root vs the independent model, owner of every block, verifying proofs).
+func wideCases(rep *rt.Report, tier rt.Tier) {
+	type wcase struct {
+		pos    int
+		nibs   []int
+		mode   int // 0 memory, 1 committed at level 0 and reloaded from (root, weight), 2 committed at level 1 (kept)
+		reload bool
+	}
+	mkKey := func(pos, nib int) []byte {
+		k := make([]byte, 32)
+		for i := range k {
+			k[i] = 0x5a
+		}
+		b := k[pos/2]
+		if pos%2 == 0 {
+			b = byte(nib)<<4 | b&0x0f
+		} else {
+			b = b&0xf0 | byte(nib)
+		}
+		k[pos/2] = b
+		return k
+	}
+	var cases []wcase
+	for _, pos := range []int{0, 1, 62, 63} {
+		for mode := 0; mode < 3; mode++ {
+			for i := 0; i < 16; i++ {
+				for j := i + 1; j < 16; j++ {
+					cases = append(cases, wcase{pos: pos, nibs: []int{i, j}, mode: mode}, wcase{pos: pos, nibs: []int{j, i}, mode: mode})
+				}
+				var sub []int
+				for j := 0; j < 16; j++ {
+					if j != i {
+						sub = append(sub, j)
+					}
+				}
+				cases = append(cases, wcase{pos: pos, nibs: sub, mode: mode})
+			}
+			cases = append(cases, wcase{pos: pos, nibs: []int{0, 1, 2, 3, 4, 5, 6, 7, 8, 9, 10, 11, 12, 13, 14, 15}, mode: mode},
+				wcase{pos: pos, nibs: []int{15, 14, 13, 12, 11, 10, 9, 8, 7, 6, 5, 4, 3, 2, 1, 0}, mode: mode},
+				wcase{pos: pos, nibs: []int{8, 0, 12, 4, 10, 6, 14, 2, 9, 1, 7, 11, 3, 13, 5, 15}, mode: mode})
+		}
+	}
+	run := func(c wcase) (fail string) {
+		defer func() {
+			if r := recover(); r != nil {
+				fail = fmt.Sprintf("panic: %v", r)
+			}
+		}()
+		s := dev.NewStore()
+		t := wmpt.New(nil, s)
+		m := model.NewWModel()
+		put := func(nib int, v string, w uint64) string {
+			k := mkKey(c.pos, nib)
+			if err := t.Update(k, []byte(v), w); err != nil {
+				return fmt.Sprintf("Update(nibble %x) returned %v", nib, err)
+			}
+			if v == "" {
+				delete(m.M, string(k))
+			} else {
+				m.M[string(k)] = model.WEntry{Key: k, Value: []byte(v), Weight: w}
+			}
+			return ""
+		}
+		for i, n := range c.nibs {
+			if f := put(n, fmt.Sprintf("v%x", n), uint64(1+(i*5+n)%4)); f != "" {
+				return f
+			}
+		}
+		settle := func() string {
+			switch c.mode {
+			case 1, 2:
+				b, err := t.Commit([]int{0, 0, 1}[c.mode])
+				if err != nil {
+					return "Commit: " + err.Error()
+				}
+				if err := b.Commit(false); err != nil {
+					return "batch.Commit: " + err.Error()
+				}
+				if c.mode == 1 {
+					t = Reopened(s, m.Root(), m.Total())
+				}
+			}
+			return ""
+		}
+		if f := settle(); f != "" {
+			return f
+		}
+		if f := Observe(t, m, true); f != "" {
+			return "after building: " + f
+		}
+		// delete the first inserted, update the last inserted (other weight), re-insert the deleted one
+		first, last := c.nibs[0], c.nibs[len(c.nibs)-1]
+		for _, st := range []struct {
+			nib int
+			v   string
+			w   uint64
+		}{{first, "", 0}, {last, fmt.Sprintf("u%x", last), 7}, {first, fmt.Sprintf("r%x", first), 2}} {
+			if f := put(st.nib, st.v, st.w); f != "" {
+				return f
+			}
+			if f := settle(); f != "" {
+				return f
+			}
+			if f := Observe(t, m, true); f != "" {
+				return fmt.Sprintf("after Update(nibble %x, %q, %d): %s", st.nib, st.v, st.w, f)
+			}
+		}
+		return ""
+	}
+	var next int64
+	var mu sync.Mutex
+	reported := map[string]bool{}
+	var wg sync.WaitGroup
+	for i := 0; i < rt.Workers(); i++ {
+		wg.Add(1)
+		go func() {
+			defer wg.Done()
+			for {
+				j := int(atomic.AddInt64(&next, 1)) - 1
+				if j >= len(cases) {
+					return
+				}
+				c := cases[j]
+				if f := run(c); f != "" {
+					key := fmt.Sprintf("%d/%d/%s", c.pos, c.mode, strings.SplitN(f, " ", 4)[0])
+					mu.Lock()
+					if !reported[key] {
+						reported[key] = true
+						rep.Violate(fmt.Sprintf("[width] keys differing in nibble %d taking the values %x (in this order), storage mode %d => %s", c.pos, c.nibs, c.mode, f), map[string]any{"run": "width", "pos": c.pos, "nibbles": c.nibs, "mode": c.mode})
+					} else {
+						rep.Add("violations_suppressed_duplicates", 1)
+					}
+					mu.Unlock()
+				}
+			}
+		}()
+	}
+	wg.Wait()
+	n := len(cases)
+	rep.Add("states", n)
+	rep.Add("transitions", 4*n)
+	rep.Add("traces_validated_against_impl", 4*n)
+	rep.Add("evaluations", 4*n)
+	rep.Add("distinct_nontrivial", n)
+	rep.Sub["width"] = map[string]any{"cases": n, "rule": "32-byte keys differing in ONE nibble (position 0, 1, 62 or 63): every ordered pair of the 16 nibble values, every 15-subset, the full set in three insertion orders; in memory, committed at level 0 and reloaded from (root, weight), committed at level 1; judged after building and after a delete, an update and a re-insert"}
 }
